@@ -116,10 +116,15 @@ class BaseCurve(Intface_BaseCurve):
             vecta, vectb = tuple(self.knotvector), tuple(other.knotvector)
             vectmul = heavy.MathOperations.knotvector_mul(vecta, vectb)
             matrix3d = heavy.MathOperations.mul_spline_curve(vecta, vectb)
-            ctrlpoints = np.tensordot(
-                np.moveaxis(self.ctrlpoints, 0, -1), matrix3d, axes=1
-            )
-            ctrlpoints = ctrlpoints @ other.ctrlpoints
+            matrix2d = [
+                [pt0 * pt1 for pt1 in other.ctrlpoints] for pt0 in self.ctrlpoints
+            ]
+            matrix3d = np.array(matrix3d)
+            matrix2d = np.array(matrix2d)
+            ctrlpoints = [0] * matrix3d.shape[1]
+            for i in range(matrix3d.shape[1]):
+                newpoint = np.tensordot(matrix3d[:, i, :], matrix2d, axes=2)
+                ctrlpoints[i] = newpoint[()]  # A scalar point stays a number
             curve = Curve(vectmul, ctrlpoints)
             return curve
         numa, dena = self.fraction()
